@@ -192,6 +192,9 @@ var funcSpecs = []funcSpec{
 	{rel: "cmd/age", name: "parseRecipientsFile", abstract: []string{"main.parseRecipient", "main.sshKeyType", "ssh.ParseAuthorizedKey"},
 		opaque: map[string]string{"age.Recipient": "ρ", "os.File": "(List UInt8)", "ssh.PublicKey": "π", "tapeτ": "τ"}, errInts: true, tape: true, logs: []string{"main.warningf"},
 		startAt: "const recipientFileSizeLimit", startVars: []string{"f"}},
+	{rel: "cmd/age", name: "randomWord", abstract: []string{"main.wordlist"}, opaque: map[string]string{"tapeτ": "τ"}, tape: true},
+	{rel: "cmd/age", name: "passphrasePromptForEncryption", abstract: []string{"main.readSecret", "main.printfToTerminal", "main.wordlist"}, opaque: map[string]string{"tapeτ": "τ"}, tape: true,
+		threaded: map[string][]string{"main.readSecret": {"tape"}, "main.printfToTerminal": {"tape"}}},
 	{rel: "", name: "aeadEncrypt", abstract: []string{"chacha20poly1305.New"}, opaque: map[string]string{"cipher.AEAD": "α"}},
 	{rel: "", name: "aeadDecrypt", abstract: []string{"chacha20poly1305.New"}, opaque: map[string]string{"cipher.AEAD": "α"}},
 	{rel: "agessh", name: "aeadEncrypt", abstract: []string{"chacha20poly1305.New"}, opaque: map[string]string{"cipher.AEAD": "α"}},
@@ -257,6 +260,7 @@ var stdlibPure = map[string]string{
 	"strings.ContainsAny":  "Go.bytes_ContainsAny",
 	"bytes.TrimSuffix":     "Go.strings_TrimSuffix",
 	"bytes.Equal":          "Go.bytes_Equal",
+	"strings.Join":         "Go.strings_Join",
 }
 
 type unsupported struct{ msg string }
@@ -449,6 +453,8 @@ func leanTypeOf(t types.Type) (string, bool) {
 			return "UInt8", true
 		case types.Uint32:
 			return "UInt32", true
+		case types.Uint16:
+			return "UInt16", true // no arithmetic: only produced by binary.BigEndian.Uint16 and converted to int
 		case types.Int, types.Int32, types.Int64, types.UntypedInt, types.UntypedRune:
 			return "Int", true
 		case types.String, types.UntypedString:
@@ -481,6 +487,8 @@ func kindOf(t types.Type) string {
 			return "u8"
 		case types.Uint32:
 			return "u32"
+		case types.Uint16:
+			return "u16"
 		case types.Int, types.Int32, types.Int64, types.UntypedInt, types.UntypedRune:
 			return "int"
 		case types.String, types.UntypedString:
@@ -1139,6 +1147,8 @@ func (c *fctx) call(x *ast.CallExpr) string {
 			return "(Go.u8ToInt " + s + ")"
 		case from == "u32" && to == "int":
 			return "(Go.u32ToInt " + s + ")"
+		case from == "u16" && to == "int":
+			return "(Int.ofNat " + s + ".toNat)"
 		}
 		c.fail(x, "conversion from %s to %s", c.typeOf(a), tv.Type)
 	}
@@ -1278,6 +1288,12 @@ func (c *fctx) call(x *ast.CallExpr) string {
 						c.useAbstractName("aead_Overhead", "(aead_Overhead : α → Go.M Int)")
 						return "(← aead_Overhead " + c.expr(sel.X) + ")"
 					}
+				}
+			}
+			// binary.BigEndian.Uint16(b): the first two bytes, big end first (fewer than two: Go panics)
+			if sel, ok := ast.Unparen(x.Fun).(*ast.SelectorExpr); ok && o.Name() == "Uint16" && o.Pkg() != nil && o.Pkg().Path() == "encoding/binary" {
+				if inner, ok := ast.Unparen(sel.X).(*ast.SelectorExpr); ok && inner.Sel.Name == "BigEndian" {
+					return "(← Go.binary_BigEndian_Uint16 " + c.exprAs(x.Args[0], types.NewSlice(types.Typ[types.Byte])) + ")"
 				}
 			}
 			// cipher.AEAD.Seal(nil, nonce, pt, aad) / Open(nil, nonce, ct, aad) as expressions: nothing to append to,
@@ -1549,6 +1565,36 @@ func (c *fctx) translatedCall(x *ast.CallExpr, o *types.Func, fi *FuncInfo, recv
 			want = psig.At(i).Type()
 		}
 		parts = append(parts, c.exprAs(a, want))
+	}
+	if c.t.tapeOf[o] {
+		// the callee draws from the explicit random state: hoisted in front of the statement, the state assigned back
+		if c.tapeVar == nil || c.noHoist || c.t.recvInout[o] || len(c.t.dstInout[o]) > 0 {
+			c.fail(x, "call of %s, which takes and hands back the random state, in this position", o.Name())
+		}
+		nres := o.Type().(*types.Signature).Results().Len()
+		t := c.tmp()
+		e, ind := c.curE, c.curInd
+		e.add(ind, "let "+t+" ← "+name+" "+strings.Join(append(parts, c.nameOf(c.tapeVar)), " "))
+		proj := func(i int) string {
+			p := t + strings.Repeat(".2", i)
+			if i < nres {
+				p += ".1"
+			}
+			return p
+		}
+		e.add(ind, c.nameOf(c.tapeVar)+" := "+proj(nres))
+		c.curE, c.curInd = e, ind
+		switch nres {
+		case 0:
+			return "()"
+		case 1:
+			return proj(0)
+		}
+		var vals []string
+		for i := 0; i < nres; i++ {
+			vals = append(vals, proj(i))
+		}
+		return "(" + strings.Join(vals, ", ") + ")"
 	}
 	raw := "(← " + name + " " + strings.Join(parts, " ") + ")"
 	if dsts := c.t.dstInout[o]; len(dsts) > 0 && !c.noHoist {
@@ -2018,6 +2064,19 @@ func (t *ftr) global(c *fctx, at ast.Node, v *types.Var) string {
 		})
 	}
 	name := leanIdent(p.Name) + "_" + v.Name()
+	// listed in funcSpec.abstract: its value is a parameter (a table the theorem does not look into)
+	if c.spec != nil {
+		for _, a := range c.spec.abstract {
+			if a == p.Name+"."+v.Name() {
+				lt, ok := leanTypeOf(v.Type())
+				if !ok {
+					c.fail(at, "type of package-level variable %s", v.Name())
+				}
+				c.useAbstractName(name, "("+name+" : "+lt+")")
+				return name
+			}
+		}
+	}
 	if init == nil {
 		// declared without a value and (checked above) never assigned outside test files: it is its zero value
 		lt, ok := leanTypeOf(v.Type())
